@@ -858,32 +858,60 @@ func loopRun(rep *Report, full bool) (transcript []string, err error) {
 	if rep != nil {
 		// the statistics after the whole block history are the fold of the transfers IBC core acknowledged with success:
 		// number of transfers = sum of all counts, amount received per denomination = sum of the incoming totals
-		g := lw.App.OrbiterKeeper.ExportGenesis(lw.Ctx).DispatcherGenesis
-		var n uint64
-		for i := range g.DispatchedCounts {
-			n += g.DispatchedCounts[i].Count
-		}
-		gotIn := map[string]*big.Int{}
-		for i := range g.DispatchedAmounts {
-			e := &g.DispatchedAmounts[i]
-			if e.SourceId.ProtocolId != 1 { // only IBC sources are produced by this history
-				continue
+		checkFold := func(l *LoopWorld, label string) {
+			g := l.App.OrbiterKeeper.ExportGenesis(l.Ctx).DispatcherGenesis
+			var n uint64
+			for i := range g.DispatchedCounts {
+				n += g.DispatchedCounts[i].Count
 			}
-			if gotIn[e.Denom] == nil {
-				gotIn[e.Denom] = new(big.Int)
+			gotIn := map[string]*big.Int{}
+			for i := range g.DispatchedAmounts {
+				e := &g.DispatchedAmounts[i]
+				if e.SourceId.ProtocolId != 1 { // only IBC sources are produced by this history
+					continue
+				}
+				if gotIn[e.Denom] == nil {
+					gotIn[e.Denom] = new(big.Int)
+				}
+				gotIn[e.Denom].Add(gotIn[e.Denom], e.AmountDispatched.Incoming.BigInt())
 			}
-			gotIn[e.Denom].Add(gotIn[e.Denom], e.AmountDispatched.Incoming.BigInt())
-		}
-		okFold := n == foldN
-		for d, v := range foldIn {
-			if gotIn[d] == nil || gotIn[d].Cmp(v) != 0 {
-				okFold = false
+			okFold := n == foldN
+			for d, v := range foldIn {
+				if gotIn[d] == nil || gotIn[d].Cmp(v) != 0 {
+					okFold = false
+				}
+			}
+			if !okFold {
+				violate(foldKind, label, fmt.Sprintf("the statistics count %d transfers with incoming totals %v; IBC core acknowledged %d orbiter transfers with success, totalling %v", n, gotIn, foldN, foldIn))
+			} else {
+				rep.Outcome("real-history-statistics-equal-the-fold")
 			}
 		}
-		if !okFold {
-			violate(foldKind, "end of history", fmt.Sprintf("after the block history the statistics count %d transfers with incoming totals %v; IBC core acknowledged %d orbiter transfers with success, totalling %v", n, gotIn, foldN, foldIn))
-		} else {
-			rep.Outcome("real-history-statistics-equal-the-fold")
+		checkFold(lw, "end of history")
+		if rep.Prop == "C12" {
+			// ... and the accumulation continues across a restart of the chain from its exported state
+			if l2, _, err := lw.Restart(); err != nil {
+				violate(foldKind, "restart", "the chain cannot be restarted from its exported state, so the statistics do not continue: "+err.Error())
+			} else {
+				for _, st := range []LoopStep{
+					{Label: "after restart: internal", Base: denomUSDC, Amount: "1110", Receiver: lw.Orb.String(), Memo: Memo(lw.FwdInternal(lw.Bob), nil)},
+					{Label: "after restart: internal uother", Base: denomOTH, Amount: "2220", Receiver: lw.Orb.String(), Memo: Memo(lw.FwdInternal(lw.Bob), lw.feeMenu()[1])},
+					{Label: "after restart: refused", Base: denomUSDC, Amount: "3330", Receiver: lw.Orb.String(), Memo: Memo(lw.FwdInternal(lw.Dust), nil)}} {
+					o, err := l2.RunStep(st)
+					if err != nil {
+						return lw.Transcript, err
+					}
+					if o.AckSuccess {
+						v, _ := parseIntLikeSDK(st.Amount)
+						if foldIn[st.Base] == nil {
+							foldIn[st.Base] = new(big.Int)
+						}
+						foldIn[st.Base].Add(foldIn[st.Base], v)
+						foldN++
+					}
+				}
+				checkFold(l2, "after a restart from the exported state and three more transfers")
+			}
 		}
 		rep.Count("loop_blocks", lw.Height-2)
 		rep.Extra["loop_block_noise_stores"] = func() []string {
